@@ -33,7 +33,7 @@ def path_census(cache):
 
 
 SPELLINGS = ["canonical", "canonical", "trailing-slash", "dot-inside", "dotdot", "symlink", "relative", "relative-dot",
-             "double-slash"]
+             "double-slash", "non-utf8", "non-ascii"]
 
 
 def spell(rng, cache, kind):
@@ -55,6 +55,14 @@ def spell(rng, cache, kind):
         if not os.path.islink(link):
             os.symlink(cache, link)
         return link, None
+    if kind in ("non-utf8", "non-ascii"):
+        # a path component that is not valid UTF-8 (legal on Linux; a Latin-1 locale's "cafe" with an accent), or one
+        # with multi-byte characters and spaces; handed to the driver as bytes
+        comp = b"caf\xe9 \xff\xfe" if kind == "non-utf8" else "d\u00e9p\u00f4t \u4e2d\U0001F600".encode()
+        link = os.path.join(os.fsencode(parent), comp)
+        if not os.path.islink(link):
+            os.symlink(b".", link)
+        return "hex:" + os.path.join(link, os.fsencode(name)).hex(), None
     if kind == "relative":
         return name, parent
     if kind == "relative-dot":
